@@ -47,8 +47,12 @@ func (b *Broker) start() {
 		case msgCh := <-b.subCh:
 			subs[msgCh] = struct{}{}
 		case msgCh := <-b.unsubCh:
-			delete(subs, msgCh)
-			close(msgCh)
+			// only a channel that is still subscribed is closed: Unsubscribe may be called with the nil
+			// channel of a failed Subscribe, or twice for the same channel
+			if _, ok := subs[msgCh]; ok {
+				delete(subs, msgCh)
+				close(msgCh)
+			}
 		case msg := <-b.publishCh:
 			wg := sync.WaitGroup{}
 			for msgCh := range subs {
